@@ -24,6 +24,18 @@ What is read from the *source text* (``ast``), fail closed:
   ``fire_event('method_return_object')`` are inside its body and in which
   order (``funnel_steps``), the ``except`` classes in order and what each
   assigns to ``ctx.out_error`` (``funnel_handlers``).
+* ``spyne/server/wsgi.py``: ``get_fault_string_from_exception`` is the one
+  imported from ``spyne.application``; in ``WsgiApplication.handle_rpc`` the
+  ``try`` around ``next(g)`` (the first item of a generator result) and the
+  ``try`` around ``self.get_out_string(p_ctx)``: their ``except`` classes in
+  order, what each assigns to ``p_ctx.out_error`` and that each ends in
+  ``return self.handle_error(...)`` (``wsgi_first_item_handlers``,
+  ``wsgi_serialise_handlers``); whether the ``chunked=False`` join of the
+  response sits inside that second ``try`` (``wsgi_join_in_try``); the success
+  status and whether it is defaulted before or after serialisation
+  (``wsgi_ok_status``, ``wsgi_ok_default_after_serialise``); in
+  ``handle_error`` where the status of a fault comes from
+  (``wsgi_error_status``).
 """
 import ast, os, importlib
 
@@ -330,6 +342,205 @@ def funnel(tree):
     return steps, handlers
 
 
+# ------------------------------------------------------------------ server/wsgi.py
+def contains_call(stmts, chain):
+    for st in stmts:
+        for n in ast.walk(st):
+            if isinstance(n, ast.Call) and attr_chain(n.func) == chain:
+                return True
+    return False
+
+
+def is_resp_code(n):
+    return attr_chain(n) == ['p_ctx', 'transport', 'resp_code']
+
+
+def is_none_test(n):
+    """`p_ctx.transport.resp_code is None`"""
+    return isinstance(n, ast.Compare) and len(n.ops) == 1 and isinstance(n.ops[0], ast.Is) and \
+        is_resp_code(n.left) and isinstance(n.comparators[0], ast.Constant) and n.comparators[0].value is None
+
+
+def ends_in_handle_error(body, what):
+    """the clause must hand p_ctx.out_error (or the caught exception) to handle_error and return its result"""
+    last = body[-1]
+    if not (isinstance(last, ast.Return) and isinstance(last.value, ast.Call) and
+            attr_chain(last.value.func) == ['self', 'handle_error'] and len(last.value.args) == 4 and
+            not last.value.keywords and attr_chain(last.value.args[0]) == ['p_ctx'] and
+            attr_chain(last.value.args[2]) == ['p_ctx', 'out_error'] and
+            attr_chain(last.value.args[3]) == ['start_response']):
+        raise TranslateError('%s: the except clause does not end in '
+                             '`return self.handle_error(p_ctx, others, p_ctx.out_error, start_response)`' % what)
+
+
+def wsgi_handler(h, what):
+    """one except clause of handle_rpc -> (hcls, herr)"""
+    if not isinstance(h.type, ast.Name) or h.type.id not in ('StopIteration', 'Fault', 'Exception'):
+        raise TranslateError('%s: unmodelled except clause' % what)
+    if h.type.id == 'StopIteration':
+        # the generator ended: not an error path; must not touch out_error nor return
+        for n in ast.walk(h):
+            if isinstance(n, ast.Return) or (isinstance(n, ast.Assign) and
+                                             attr_chain(n.targets[0]) == ['p_ctx', 'out_error']):
+                raise TranslateError('%s: unmodelled StopIteration clause' % what)
+        return ('HStopIteration', 'HENothing')
+    if not h.name:
+        raise TranslateError('%s: except %s without a name' % (what, h.type.id))
+    ends_in_handle_error(h.body, what)
+    # statements that decide p_ctx.out_error: direct assignments, and the optional re-binding
+    #   if not isinstance(e, Fault): ...; e = Fault('<code>', get_fault_string_from_exception(e))
+    rebind = None
+    asg = []
+    for st in h.body[:-1]:
+        if isinstance(st, ast.If):
+            t = st.test
+            if not (isinstance(t, ast.UnaryOp) and isinstance(t.op, ast.Not) and isinstance(t.operand, ast.Call)
+                    and isinstance(t.operand.func, ast.Name) and t.operand.func.id == 'isinstance'
+                    and len(t.operand.args) == 2 and attr_chain(t.operand.args[0]) == [h.name]
+                    and attr_chain(t.operand.args[1]) == ['Fault']) or st.orelse or rebind is not None:
+                raise TranslateError('%s: unmodelled `if` in except %s' % (what, h.type.id))
+            for s2 in st.body:
+                if isinstance(s2, ast.Assign):
+                    if len(s2.targets) == 1 and attr_chain(s2.targets[0]) == [h.name] and \
+                            new_fault_expr(s2.value, h.name) is not None and rebind is None:
+                        rebind = new_fault_expr(s2.value, h.name)
+                    else:
+                        raise TranslateError('%s: unmodelled assignment under `if not isinstance(e, Fault)`' % what)
+                elif not isinstance(s2, ast.Expr):
+                    raise TranslateError('%s: unmodelled statement under `if not isinstance(e, Fault)`' % what)
+            if rebind is None:
+                raise TranslateError('%s: `if not isinstance(e, Fault)` does not re-bind the exception' % what)
+        elif isinstance(st, ast.Assign):
+            if len(st.targets) != 1:
+                raise TranslateError('%s: unmodelled assignment' % what)
+            tg = attr_chain(st.targets[0])
+            if tg == ['p_ctx', 'out_error']:
+                asg.append(st.value)
+            elif tg == [h.name]:
+                raise TranslateError('%s: the caught exception is re-bound unconditionally' % what)
+            elif tg not in (['p_ctx', 'out_document'], ['p_ctx', 'out_string']):
+                raise TranslateError('%s: unmodelled assignment to %r' % (what, tg))
+        elif isinstance(st, ast.Expr) and isinstance(st.value, ast.Call):
+            if attr_chain(st.value.func) not in (['logger', 'exception'], ['logger', 'error'], ['p_ctx', 'fire_event']):
+                raise TranslateError('%s: unmodelled call in except %s' % (what, h.type.id))
+        else:
+            raise TranslateError('%s: unmodelled statement in except %s' % (what, h.type.id))
+    if len(asg) != 1:
+        raise TranslateError('%s: expected exactly one assignment to p_ctx.out_error in except %s' % (what, h.type.id))
+    v = asg[0]
+    if isinstance(v, ast.Name) and v.id == h.name:
+        if rebind is not None:
+            if h.type.id != 'Exception':
+                raise TranslateError('%s: re-binding under except %s' % (what, h.type.id))
+            return ('HException', '(HECaughtOrNew %s)' % gtext(rebind))
+        return ('H' + h.type.id, 'HECaught')
+    if rebind is None and new_fault_expr(v, h.name) is not None:
+        return ('H' + h.type.id, '(HENew %s)' % gtext(new_fault_expr(v, h.name)))
+    raise TranslateError('%s: unmodelled p_ctx.out_error in except %s' % (what, h.type.id))
+
+
+def wsgi_tables(repo):
+    tree = parse(repo, 'spyne/server/wsgi.py')
+    ok = False
+    for n in tree.body:
+        if isinstance(n, ast.ImportFrom) and n.module == 'spyne.application' and n.level == 0 and \
+                any(a.name == 'get_fault_string_from_exception' and a.asname is None for a in n.names):
+            ok = True
+        if isinstance(n, (ast.FunctionDef, ast.ClassDef)) and n.name == 'get_fault_string_from_exception':
+            ok = None
+            break
+        if isinstance(n, ast.Assign) and any(attr_chain(t) == ['get_fault_string_from_exception'] for t in n.targets):
+            ok = None
+            break
+    if not ok:
+        raise TranslateError('server/wsgi.py: get_fault_string_from_exception is not (only) the one of spyne.application')
+    cls = find_class(tree, 'WsgiApplication')
+    rpc = find_def(cls.body, 'handle_rpc')
+    for n in ast.walk(rpc):
+        if isinstance(n, (ast.Global, ast.Nonlocal)):
+            raise TranslateError('handle_rpc: global/nonlocal')
+    tries = [s for s in ast.walk(rpc) if isinstance(s, ast.Try)]
+    first = [t for t in tries if any(isinstance(n, ast.Call) and isinstance(n.func, ast.Name) and n.func.id == 'next'
+                                     and len(n.args) == 1 and attr_chain(n.args[0]) == ['g']
+                                     for st in t.body for n in ast.walk(st))]
+    ser = [t for t in tries if contains_call(t.body, ['self', 'get_out_string'])]
+    if len(first) != 1 or len(ser) != 1 or first[0] is ser[0]:
+        raise TranslateError('handle_rpc: expected one try around next(g) and one around self.get_out_string(p_ctx)')
+    first, ser = first[0], ser[0]
+    if ser not in rpc.body:
+        raise TranslateError('handle_rpc: the try around get_out_string is not a top-level statement')
+    for t in (first, ser):
+        if t.orelse or t.finalbody:
+            raise TranslateError('handle_rpc: try with else/finally')
+    # every next(g) / get_out_string call of handle_rpc is inside those two
+    def count(chain_test):
+        return sum(1 for n in ast.walk(rpc) if isinstance(n, ast.Call) and chain_test(n))
+    if count(lambda n: attr_chain(n.func) == ['self', 'get_out_string']) != 1:
+        raise TranslateError('handle_rpc: get_out_string is called more than once')
+    if count(lambda n: isinstance(n.func, ast.Name) and n.func.id == 'next' and len(n.args) == 1
+             and attr_chain(n.args[0]) == ['g']) != 1:
+        raise TranslateError('handle_rpc: next(g) is called more than once')
+    h_first = [wsgi_handler(h, 'handle_rpc/next(g)') for h in first.handlers]
+    h_ser = [wsgi_handler(h, 'handle_rpc/get_out_string') for h in ser.handlers]
+    if any(h[0] == 'HStopIteration' for h in h_ser):
+        raise TranslateError('handle_rpc: StopIteration clause on the serialisation try')
+
+    # where is the unchunked response joined?  `if not self.chunked: p_ctx.out_string = [b''.join(p_ctx.out_string)]`
+    def is_join_stmt(st):
+        if not (isinstance(st, ast.If) and isinstance(st.test, ast.UnaryOp) and isinstance(st.test.op, ast.Not)
+                and attr_chain(st.test.operand) == ['self', 'chunked'] and not st.orelse):
+            return False
+        return any(isinstance(n, ast.Call) and isinstance(n.func, ast.Attribute) and n.func.attr == 'join'
+                   and len(n.args) == 1 and attr_chain(n.args[0]) == ['p_ctx', 'out_string'] for n in ast.walk(st))
+    join_in_try = any(is_join_stmt(st) for st in ser.body)
+
+    # the success status: `if p_ctx.transport.resp_code is None: p_ctx.transport.resp_code = HTTP_nnn`
+    defaults = []
+    for i, st in enumerate(rpc.body):
+        for n in ast.walk(st):
+            if isinstance(n, ast.Assign) and any(is_resp_code(t) for t in n.targets):
+                if not (st is not ser and isinstance(st, ast.If) and is_none_test(st.test) and not st.orelse
+                        and len(st.body) == 1 and st.body[0] is n and isinstance(n.value, ast.Name)):
+                    raise TranslateError('handle_rpc: unmodelled assignment to p_ctx.transport.resp_code')
+                defaults.append((i, http_number(n.value.id)))
+    if len(defaults) != 1:
+        raise TranslateError('handle_rpc: expected exactly one default for p_ctx.transport.resp_code')
+    after = defaults[0][0] > rpc.body.index(ser)
+    sr = [i for i, st in enumerate(rpc.body) if contains_call([st], ['start_response'])]
+    if not sr or min(sr) < defaults[0][0] or min(sr) < rpc.body.index(ser):
+        raise TranslateError('handle_rpc: start_response is reachable before the status is decided')
+
+    # handle_error: `if p_ctx.transport.resp_code is None: p_ctx.transport.resp_code = p_ctx.out_protocol.fault_to_http_response_code(error)`
+    he = find_def(cls.body, 'handle_error')
+    if [a.arg for a in he.args.args] != ['self', 'p_ctx', 'others', 'error', 'start_response']:
+        raise TranslateError('handle_error: unexpected signature')
+    es = []
+    for st in strip_doc(he.body):
+        for n in ast.walk(st):
+            if isinstance(n, ast.Assign) and any(is_resp_code(t) for t in n.targets):
+                v = n.value
+                if isinstance(st, ast.If) and is_none_test(st.test) and not st.orelse and len(st.body) == 1 \
+                        and st.body[0] is n and isinstance(v, ast.Call) and not v.keywords and len(v.args) == 1 \
+                        and attr_chain(v.func) == ['p_ctx', 'out_protocol', 'fault_to_http_response_code'] \
+                        and attr_chain(v.args[0]) == ['error']:
+                    es.append('ESFromFault')
+                elif isinstance(st, ast.If) and is_none_test(st.test) and not st.orelse and len(st.body) == 1 \
+                        and st.body[0] is n and isinstance(v, ast.Name):
+                    es.append('(ESConst %d)' % http_number(v.id))
+                else:
+                    raise TranslateError('handle_error: unmodelled assignment to p_ctx.transport.resp_code')
+    if len(es) != 1:
+        raise TranslateError('handle_error: expected exactly one assignment to p_ctx.transport.resp_code')
+    body = strip_doc(he.body)
+    gi = [i for i, st in enumerate(body) if contains_call([st], ['self', 'get_out_string'])]
+    si = [i for i, st in enumerate(body) if contains_call([st], ['start_response'])]
+    if len(gi) != 1 or len(si) != 1 or not gi[0] < si[0]:
+        raise TranslateError('handle_error: expected get_out_string once, then start_response once')
+    if any(isinstance(n, ast.Try) for st in body[:si[0] + 1] for n in ast.walk(st)):
+        raise TranslateError('handle_error: a try statement before start_response is not modelled')
+    return h_first, h_ser, join_in_try, defaults[0][1], after, es[0]
+
+
 # ------------------------------------------------------------------ emit
 def generate(repo):
     order, mro, code = error_classes(repo)
@@ -338,9 +549,10 @@ def generate(repo):
     app_tree = parse(repo, 'spyne/application.py')
     fs = fault_string_fn(app_tree)
     steps, handlers = funnel(app_tree)
+    w_first, w_ser, w_join, w_ok, w_after, w_es = wsgi_tables(repo)
     E = lambda k: 'E_' + k
     o = ['(* GENERATED by harness/translate/faultpipe.py from spyne/error.py, spyne/protocol/_outbase.py,',
-         '   spyne/protocol/soap/soap11.py and spyne/application.py.  Do not edit. *)',
+         '   spyne/protocol/soap/soap11.py, spyne/application.py and spyne/server/wsgi.py.  Do not edit. *)',
          'From SpyneV Require Import Base.Prelude.', 'Open Scope Z_scope.', '',
          '(** Fault classes of spyne/error.py (single inheritance below spyne.model.fault.Fault) *)',
          'Inductive ecls := ' + ' | '.join(E(k) for k in order) + '.',
@@ -374,9 +586,19 @@ def generate(repo):
          ' '.join('| %s => %s' % (c, i) for c, i in impls()) + ' end.', '',
          '(** Application.process_request: what runs inside the try, and the except clauses in order *)',
          'Inductive fstep := StFireCall | StCallUser | StFireReturn.',
-         'Inductive hcls := HRedirect | HFault | HException.',
-         'Inductive herr := HECaught | HENew (code : text) | HENothing.',
+         'Inductive hcls := HRedirect | HFault | HException | HStopIteration.',
+         '(** what a clause leaves in out_error: the caught exception, a new Fault(code, fault string), the caught',
+         '    exception when it is a Fault and a new Fault(code, fault string) otherwise, or nothing *)',
+         'Inductive herr := HECaught | HENew (code : text) | HECaughtOrNew (code : text) | HENothing.',
          'Definition funnel_steps : list fstep := [%s].' % '; '.join(steps),
          'Definition funnel_handlers : list (hcls * herr) := [%s].' %
-         '; '.join('(%s, %s)' % h for h in handlers), '']
+         '; '.join('(%s, %s)' % h for h in handlers), '',
+         '(** WsgiApplication.handle_rpc / handle_error *)',
+         'Definition wsgi_first_item_handlers : list (hcls * herr) := [%s].' % '; '.join('(%s, %s)' % h for h in w_first),
+         'Definition wsgi_serialise_handlers : list (hcls * herr) := [%s].' % '; '.join('(%s, %s)' % h for h in w_ser),
+         'Definition wsgi_join_in_try : bool := %s.' % ('true' if w_join else 'false'),
+         'Definition wsgi_ok_status : Z := %d.' % w_ok,
+         'Definition wsgi_ok_default_after_serialise : bool := %s.' % ('true' if w_after else 'false'),
+         'Inductive estatus := ESFromFault | ESConst (s : Z).',
+         'Definition wsgi_error_status : estatus := %s.' % w_es, '']
     return {'FaultTables.v': '\n'.join(o)}
